@@ -1,5 +1,5 @@
 //@append src/bucket.rs
-//@covers InnerBucket_get InnerBucket_delete InnerBucket_put_leaf InnerBucket_delete_bucket InnerBucket_bucket_getter Bucket_put Bucket_delete Bucket_create_bucket Bucket_get_or_create_bucket Bucket_delete_bucket
+//@covers OpenOptions_open init_file InnerBucket_get InnerBucket_delete InnerBucket_put_leaf InnerBucket_delete_bucket InnerBucket_bucket_getter Bucket_put Bucket_delete Bucket_create_bucket Bucket_get_or_create_bucket Bucket_delete_bucket
 // Bounded, executable version of C01/C05/C06 for the bucket layer on the REAL crate: seeded histories of write
 // transactions (put / delete / create / get / get-or-create / delete bucket at nesting depth <= 3, commit, rollback,
 // close + reopen) against a nested ordered-map model.  Every call's value or error kind is compared, after every commit
@@ -85,12 +85,15 @@ mod verif_cex_history {
         Ok(())
     }
 
-    fn run_seed(seed: u64) -> Result<(), String> {
-        let p = std::env::temp_dir().join(format!("jammdb-cex-history-{}-{}.db", seed, std::process::id()));
+    fn run_seed(seed: u64) -> Result<(), String> { run_seed_with(seed, 1024, 32, false) }
+    // the same seeded history under given open options (C16: options change performance, not behaviour)
+    fn run_seed_with(seed: u64, ps: u64, np: u64, strict: bool) -> Result<(), String> {
+        let p = std::env::temp_dir().join(format!("jammdb-cex-history-{}-{}-{}-{}-{}.db", seed, ps, np, strict, std::process::id()));
         let _ = std::fs::remove_file(&p);
         let res = (|| {
             let mut r = Rng(seed.wrapping_mul(0x9E3779B97F4A7C15) ^ 0xD1B54A32D192ED03);
-            let mut db = OpenOptions::new().pagesize(1024).open(&p).map_err(|e| format!("open: {:?}", e))?;
+            let opts = || OpenOptions::new().pagesize(ps).num_pages(np as usize).strict_mode(strict);
+            let mut db = opts().open(&p).map_err(|e| format!("open: {:?}", e))?;
             let mut committed = MB::default();
             let mut log: Vec<String> = Vec::new();
             for txn in 0..12 {
@@ -211,7 +214,7 @@ mod verif_cex_history {
                 if std::env::var("VERIF_CEX_STOP").ok().and_then(|s| s.parse::<u64>().ok()) == Some(txn as u64) { return Err(format!("stopped after transaction {} as requested", txn)); }
                 if r.below(4) == 0 {
                     drop(db);
-                    db = OpenOptions::new().pagesize(1024).open(&p).map_err(|e| format!("{}: reopen fails: {:?}", ctx, e))?;
+                    db = opts().open(&p).map_err(|e| format!("{}: reopen fails: {:?}", ctx, e))?;
                     log.push("REOPEN".into());
                     read_all(&db, &committed, &format!("{} after close + reopen", ctx))?;
                 }
@@ -266,6 +269,24 @@ mod verif_cex_history {
                 Ok(Ok(())) => {}
                 Ok(Err(e)) => { println!("CEX history (C01/C05): {}", e); panic!("shape mismatch"); }
                 Err(_) => { println!("CEX history (C01 nothing panics): shape: {} {} buckets, then ONE transaction deleting buckets [{}..{}), page size 1024: panicked", n, if top { "top-level" } else { "nested" }, a, b); panic!("shape panic"); }
+            }
+        }
+    }
+
+    #[test]
+    fn cex_history_options() {
+        // C16: the same seeded histories must behave like the reference map under every accepted combination of options
+        for ps in [1024u64, 1032, 3000, 4096, 16384] {
+            for np in [4u64, 64] {
+                for strict in [false, true] {
+                    for seed in 0..3u64 {
+                        match std::panic::catch_unwind(|| run_seed_with(seed, ps, np, strict)) {
+                            Ok(Ok(())) => {}
+                            Ok(Err(e)) => { println!("CEX history under options (C16): page size {}, initial pages {}, strict mode {}: {}", ps, np, strict, e); panic!("options mismatch"); }
+                            Err(_) => { println!("CEX history under options (C16): page size {}, initial pages {}, strict mode {}: seed {} panicked", ps, np, strict, seed); panic!("options panic"); }
+                        }
+                    }
+                }
             }
         }
     }
